@@ -990,9 +990,134 @@ func d3Channel(p *Prog, o *obls, fn *ssa.Function, isLifecycle func(map[string]b
 // ---- D5 -----------------------------------------------------------------------------------------------------------
 
 type containerOp struct {
-	field string
-	fn    *ssa.Function
-	at    ssa.Instruction
+	field  string
+	fn     *ssa.Function
+	at     ssa.Instruction
+	keyArg int // index of the key among the call's arguments (calls only; 0 = the default position 1)
+}
+
+// wrapInfo describes a method of a repository container type (a registry struct around a map: put/remove/…): what it
+// does to a container held in a field of its receiver.
+type wrapInfo struct {
+	inserts, deletes bool
+	keyParam         int    // parameter index of the inserted key (0 if not a parameter)
+	inner            string // field key of the inner container
+	innerType        types.Type
+}
+
+// wrapperMethods: methods (generic bodies included) that insert into / delete from a container field of their receiver.
+func (p *Prog) wrapperMethods() map[*ssa.Function]wrapInfo {
+	if p.wrapCache != nil {
+		return p.wrapCache
+	}
+	out := map[*ssa.Function]wrapInfo{}
+	for _, fn := range p.Funcs {
+		if fn.Signature.Recv() == nil || len(fn.Params) == 0 || fn.Parent() != nil {
+			continue
+		}
+		recv := ssa.Value(fn.Params[0])
+		ofRecv := func(v ssa.Value) (string, types.Type) {
+			v0 := v
+			for i := 0; i < 5; i++ {
+				switch x := v0.(type) {
+				case *ssa.FieldAddr:
+					if p.origin(x.X) == recv {
+						if fv := fieldOfAddr(x); fv != nil {
+							return fieldKeyAddr(x), fv.Type()
+						}
+					}
+					return "", nil
+				case *ssa.UnOp:
+					if x.Op == token.MUL {
+						v0 = x.X
+						continue
+					}
+				}
+				break
+			}
+			return "", nil
+		}
+		wi := wrapInfo{}
+		instrsOf(fn, func(in ssa.Instruction) {
+			switch x := in.(type) {
+			case *ssa.MapUpdate:
+				if k, t := ofRecv(x.Map); k != "" {
+					wi.inserts, wi.inner, wi.innerType = true, k, t
+					if par, ok := p.origin(x.Key).(*ssa.Parameter); ok {
+						for i, q := range fn.Params {
+							if q == par {
+								wi.keyParam = i
+							}
+						}
+					}
+				}
+			case *ssa.Call:
+				switch calleeName(&x.Call) {
+				case "builtin delete", "builtin clear", "(*sync.Map).Delete", "(*sync.Map).LoadAndDelete", "(*sync.Map).Clear":
+					if k, t := ofRecv(x.Call.Args[0]); k != "" {
+						wi.deletes, wi.inner, wi.innerType = true, k, t
+					}
+				case "(*sync.Map).Store", "(*sync.Map).LoadOrStore", "(*sync.Map).Swap":
+					if k, t := ofRecv(x.Call.Args[0]); k != "" {
+						wi.inserts, wi.inner, wi.innerType = true, k, t
+						if par, ok := p.origin(stripIface(x.Call.Args[1])).(*ssa.Parameter); ok {
+							for i, q := range fn.Params {
+								if q == par {
+									wi.keyParam = i
+								}
+							}
+						}
+					}
+				}
+			case *ssa.Store:
+				// the inner map replaced by a fresh one empties the registry
+				if fa, ok := x.Addr.(*ssa.FieldAddr); ok && p.origin(fa.X) == recv {
+					if _, isMap := deref(fa.Type()).Underlying().(*types.Map); isMap {
+						if _, isMake := p.origin(x.Val).(*ssa.MakeMap); isMake && !wi.inserts {
+							// (lazy creation in an insert method is not a removal)
+							wi.deletes, wi.inner = true, fieldKeyAddr(fa)
+							if fv := fieldOfAddr(fa); fv != nil {
+								wi.innerType = fv.Type()
+							}
+						}
+					}
+				}
+			}
+		})
+		if wi.inserts {
+			wi.deletes = false
+		}
+		if wi.inserts || wi.deletes {
+			out[fn] = wi
+		}
+	}
+	p.wrapCache = out
+	return out
+}
+
+// wrapperCall: the call invokes a wrapper method on a container object held in a field (by value or by pointer) of
+// another object; returns that outer field's key.
+func (p *Prog) wrapperCall(c *ssa.Call) (string, wrapInfo, bool) {
+	sc := c.Call.StaticCallee()
+	if sc == nil || len(c.Call.Args) == 0 {
+		return "", wrapInfo{}, false
+	}
+	if o := sc.Origin(); o != nil && o != sc {
+		sc = o
+	}
+	wi, ok := p.wrapperMethods()[sc]
+	if !ok {
+		return "", wrapInfo{}, false
+	}
+	outer := containerKey(p, c.Call.Args[0])
+	if outer == "" || outer == wi.inner {
+		return "", wrapInfo{}, false
+	}
+	// a container that was a plain field of the owner on the confirmed tree and is now wrapped keeps its old key
+	if old := p.wrappedBaselineField(ownerOfFieldKey(outer), wi.innerType); old != "" {
+		outer = ownerOfFieldKey(outer) + "." + old
+	}
+	return outer, wi, true
 }
 
 func containerOps(p *Prog) (ins, del []containerOp) {
@@ -1001,28 +1126,36 @@ func containerOps(p *Prog) (ins, del []containerOp) {
 			switch x := in.(type) {
 			case *ssa.MapUpdate:
 				if f := containerKey(p, x.Map); f != "" {
-					ins = append(ins, containerOp{f, fn, x})
+					ins = append(ins, containerOp{field: f, fn: fn, at: x})
 				}
 			case *ssa.Call:
+				if outer, wi, ok := p.wrapperCall(x); ok {
+					if wi.inserts {
+						ins = append(ins, containerOp{field: outer, fn: fn, at: x, keyArg: wi.keyParam})
+					} else {
+						del = append(del, containerOp{field: outer, fn: fn, at: x})
+					}
+					return
+				}
 				switch calleeName(&x.Call) {
 				case "(*sync.Map).Store", "(*sync.Map).LoadOrStore", "(*sync.Map).Swap":
 					if f := containerKey(p, x.Call.Args[0]); f != "" {
-						ins = append(ins, containerOp{f, fn, x})
+						ins = append(ins, containerOp{field: f, fn: fn, at: x})
 					}
 				case "(*sync.Map).Delete", "(*sync.Map).LoadAndDelete", "(*sync.Map).Clear":
 					if f := containerKey(p, x.Call.Args[0]); f != "" {
-						del = append(del, containerOp{f, fn, x})
+						del = append(del, containerOp{field: f, fn: fn, at: x})
 					}
 				case "builtin delete", "builtin clear":
 					if f := containerKey(p, x.Call.Args[0]); f != "" {
-						del = append(del, containerOp{f, fn, x})
+						del = append(del, containerOp{field: f, fn: fn, at: x})
 					}
 				}
 			case *ssa.Store:
 				// re-assignment of the container field with a fresh map empties it
 				if fa, ok := x.Addr.(*ssa.FieldAddr); ok {
 					if _, isMap := deref(fa.Type()).Underlying().(*types.Map); isMap && sharedBase(p, fn, fa.X) {
-						del = append(del, containerOp{fieldKeyAddr(fa), fn, x})
+						del = append(del, containerOp{field: fieldKeyAddr(fa), fn: fn, at: x})
 					}
 				}
 			}
@@ -1119,7 +1252,13 @@ func keyFromStreamInfo(p *Prog, op containerOp) bool {
 	case *ssa.MapUpdate:
 		key = x.Key
 	case *ssa.Call:
-		key = x.Call.Args[1]
+		k := 1
+		if op.keyArg > 0 {
+			k = op.keyArg
+		}
+		if k < len(x.Call.Args) {
+			key = x.Call.Args[k]
+		}
 	}
 	if key == nil {
 		return false
